@@ -29,7 +29,7 @@ Inductive instr :=
 | ICancelled (j : nat)           (* cancel(): self.cancelled() *)
 | IDoneC (j : nat)               (* cancel(): self.done() *)
 | IXCancelScan (j : nat)         (* executor._cancel: X-section *)
-| IDCancel (j d : nat)           (* found_job.delegate_future.cancel() *)
+| IDCancel (j d r : nat)         (* found_job.delegate_future.cancel(); r = found_job *)
 | IFCancel (j : nat)             (* super().cancel() *)
 | IFSrnc (j : nat)               (* set_running_or_notify_cancel() *)
 | IDoneA (j c : nat)             (* add_done_callback: self.done() *)
@@ -210,13 +210,13 @@ Definition step0 (s : st) (e : ev) : option st :=
                                  <| jobs := jobs s ++ [r] |>) t rest) (HSubmit j w))
       | IXCancelScan j :: rest =>
           match find_fut s j with
-          | None => Some (set_prog s t (IRelM j :: IRaise :: rest))       (* assert found_job *)
+          | None => Some (set_prog s t (IRelM j :: IRetB false :: rest))   (* job already dequeued: too late *)
           | Some r =>
               match jdel (recs s r) with
               | None => Some (set_prog (s <| jobs := remove_id r (jobs s) |>) t
                                        (IFCancel j :: IFSrnc j :: IRelMCbs j :: IRetB true :: rest))
               | Some d => Some (set_prog (s <| recs := upd (recs s) r (recs s r <| jstop := true |>) |>) t
-                                         (IDCancel j d :: rest))
+                                         (IDCancel j d r :: rest))
               end
           end
       | IXRetry r delta :: rest =>
@@ -303,11 +303,8 @@ Definition step0 (s : st) (e : ev) : option st :=
           | Some n => Some (log (set_prog (s <| rs := upd (rs s) j n |> <| rout := upd (rout s) j (Some o) |>
                                              <| rdel := upd (rdel s) j None |>) t rest) (HFinal j o ts))
           | None =>
-              (* InvalidStateError: copy_exception tolerates it (callbacks are skipped), a plain set_result does not *)
-              match o with
-              | Err _ => Some (set_prog (s <| rdel := upd (rdel s) j None |>) t (IRelM j :: tl rest))
-              | Ok _ => Some (set_prog (s <| rdel := upd (rdel s) j None |>) t (IRelM j :: IThrow :: rest))
-              end
+              (* InvalidStateError is tolerated (try_set_result / copy_exception); callbacks are skipped *)
+              Some (set_prog (s <| rdel := upd (rdel s) j None |>) t (IRelM j :: tl rest))
           end
       | _, _ => None
       end
@@ -325,12 +322,12 @@ Definition step0 (s : st) (e : ev) : option st :=
           if fcancelled pre then Some (set_prog s t rest)                 (* returns silently *)
           else if jstop (recs s r) then Some (set_prog s t (finalize_prog s r d ++ rest))
           else Some (set_prog s t (IPolSR r :: rest))
-      | IDCancel j d' :: rest, 2 =>
+      | IDCancel j d' r :: rest, 2 =>
           if negb (Nat.eqb d d') then None else
           let '(n, b) := f_cancel pre in
           if b then
             let s1 := s <| ds := upd (ds s) d n |> <| rdel := upd (rdel s) j None |> in
-            let cont := IFCancel j :: IFSrnc j :: IRelMCbs j :: IRetB true :: rest in
+            let cont := IXPop r :: IFCancel j :: IFSrnc j :: IRelMCbs j :: IRetB true :: rest in
             if f_cancel_fires pre && dcb s d then Some (set_prog s1 t (IDCbDone d :: ICatch :: cont))
             else Some (set_prog s1 t cont)
           else Some (set_prog s t (IEvSet :: IRelM j :: IRetB false :: rest))
@@ -426,7 +423,9 @@ Definition step0 (s : st) (e : ev) : option st :=
       end
   | EEnvStart t d =>
       match thr s t with
-      | [] => if Nat.eqb t worker || negb (d <? ndel s) then None else Some (log s (HStart d ts))
+      | [] => (* the environment invokes the callable only after set_running_or_notify_cancel() returned True *)
+              if Nat.eqb t worker || negb (d <? ndel s) || negb (fstate_eqb (ds s d) Running) then None
+              else Some (log s (HStart d ts))
       | _ => None
       end
   | EEnvFinish t d pre o =>
